@@ -11,7 +11,10 @@ for f in $TMP/lane.*; do
     id=$(basename $d); prop=${id%%-*}
     S=$TMP/rc.$id; rm -rf $S; cp -r /repo $S; rm -rf $S/.git
     (cd $S && patch -p1 -s < $d/patch.diff) || { echo "$id PATCH-FAILED"; rm -rf $S; continue; }
-    out=$(cd /verif && VERIF_NO_NATIVE=1 VERIF_REPO=$S ./bin/symgo check --property $prop --no-evidence --validate 0 2>&1)
+    case $prop in
+      C03|C06|C12) out=$(cd /verif && VERIF_REPO=$S ./bin/symgo check --property $prop --no-evidence 2>&1) ;; # have native-only harnesses
+      *) out=$(cd /verif && VERIF_NO_NATIVE=1 VERIF_REPO=$S ./bin/symgo check --property $prop --no-evidence --validate 0 2>&1) ;;
+    esac
     rc=$?
     harn=$(echo "$out" | grep -A1 "^VIOLATION" | grep "harness=" | sed 's/.*harness=\([A-Za-z0-9_]*\).*/\1/' | sort -u | paste -sd,)
     echo "$id rc=$rc caught_by=$harn"
